@@ -292,6 +292,10 @@ func (ssf *serverSessionFormat) writePacketRTP(pkt *rtp.Packet, ntp time.Time) e
 		maxPlainPacketSize -= srtpOverhead + len(ssf.ssm.srtpOutCtx.mki)
 	}
 
+	if maxPlainPacketSize < 0 {
+		return fmt.Errorf("MaxPacketSize is too small")
+	}
+
 	plain := make([]byte, maxPlainPacketSize)
 	n, err := pkt.MarshalTo(plain)
 	if err != nil {
